@@ -10,6 +10,7 @@ EXPLANATION = (
     "identifiers under NTS only for NTS-NAK packets, and every effect site is outside that weakly accepted "
     "class (dominated by !is_kiss_ntsn, or only active without NTS); cookies are stored only from the "
     "encrypted field list, which is extended only after a successful decrypt."
+    ' Replay: the pending identifier is consumed before the measurement is handed over (C08-R2).'
 )
 NOT_DECIDED = ["cryptographic unforgeability of AES-SIV (assumed)"]
 
